@@ -218,7 +218,7 @@ def compileInstr (ctx : Ctx) (s : St) : EInstr → Except Err (St × List MStmtC
   | .globalSet g => do
     let some t := ctx.globalTypes[g]? | .error "global index"
     let some s0 := s.top 0 | .error "global.set: stack"
-    if s.height < s.base + 1 then .error "global.set: pops below the enclosing label (invalid module)" else
+    if s0.ty ≠ t ∨ s.height < s.base + 1 then .error "global.set: operand type / pops below the enclosing label (invalid module)" else
     .ok ((s.declare ⟨t, s0.idx⟩).drop 1, [.globalSet g ⟨t, s0.idx⟩], false)
   | .load opcode off => do
     let some (fn, rt) := lookupAssoc Gen.loadTable opcode | .error s!"unsupported load {opcode}"
@@ -238,7 +238,7 @@ def compileInstr (ctx : Ctx) (s : St) : EInstr → Except Err (St × List MStmtC
     .ok (s'.declare dst, [.memSize dst], false)
   | .memoryGrow => do
     let some s0 := s.top 0 | .error "memory.grow: stack"
-    if s.height < s.base + 1 then .error "memory.grow: pops below the enclosing label (invalid module)" else
+    if s0.ty ≠ .i32 ∨ s.height < s.base + 1 then .error "memory.grow: operand type / pops below the enclosing label (invalid module)" else
     .ok (s.declare ⟨.i32, s0.idx⟩, [.memGrow ⟨.i32, s0.idx⟩ s0], false)
   | .memoryCopy => do
     let some s0 := s.top 0 | .error "memory.copy: stack"
